@@ -522,3 +522,4 @@ pub fn c15_opt_main(tier: &str) -> i32 {
     }
     0
 }
+
